@@ -758,3 +758,31 @@ PROPS["C01"]["theorems"] += ["Refmt.C01Full.roundtrip_full_cbor", "Refmt.C13Full
 PROPS["C01"]["extra_modules"] = PROPS["C01"].get("extra_modules", []) + ["RefmtProofs.Props.C01Full", "RefmtProofs.Props.C13Full"]
 PROPS["C01"]["claim"] += (" Since C01Full.roundtrip_full_cbor: for CBOR the full statement holds on the whole domain fullTy (structs, unions, "
     "transforms, untyped slots, nested arbitrarily): Marshal to bytes then Unmarshal returns normV up to map entry order.")
+
+# C03 / C12 / C01: the float text round trip is SEMANTIC: the number read back is the float that was written
+PROPS["C03"]["theorems"] += ["Refmt.C03Sem.numTok_jsonFloat", "Refmt.C03Sem.numTok_jsonFloat_nz", "Refmt.C03Sem.numTok_jsonFloat_kinds",
+                             "Refmt.FloatL.shortest_roundtrip", "Refmt.FloatL.roundRat_spec"]
+PROPS["C03"]["extra_modules"] += ["RefmtProofs.Props.C03Sem", "RefmtProofs.Lemmas.FloatFuel", "RefmtProofs.Lemmas.FloatRound"]
+PROPS["C03"]["claim"] += (" Since C03Sem the float leg is semantic too: `roundRat` (the model of correctly rounded parsing) returns v for every "
+    "rational in v's rounding interval, the shortest-digits search always finds a candidate in that interval, hence for every finite "
+    "float x the text written re-reads as the float x itself or, when the text is integral, as the integer whose float64 value is x "
+    "(-0 re-reads as 0, as the property says).")
+PROPS["C12"]["theorems"] += ["Refmt.C03Sem.floatStable_finite", "Refmt.C03Sem.jsonU_float_clause"]
+PROPS["C12"]["extra_modules"] += ["RefmtProofs.Props.C03Sem"]
+PROPS["C12"]["claim"] += (" Since C03Sem.floatStable_finite the per-float condition of fixpoint_json holds for every finite float other than -0.")
+PROPS["C01"]["theorems"] += ["Refmt.C03Sem.rereadOk_finite", "Refmt.C03Sem.plainJson_float"]
+PROPS["C01"]["extra_modules"] += ["RefmtProofs.Props.C03Sem"]
+PROPS["C01"]["claim"] += (" Since C03Sem.rereadOk_finite the per-float condition `rereadOk` of the JSON theorems holds for every finite float other than -0.")
+
+def rule_numbytes(body, I, M):
+    """C09 on the wire: as rule_roundtrip; in addition, accepting a number where the (proved) store model rejects it as
+    not fitting is a property violation, not just a correspondence break."""
+    r = rule_roundtrip(body, I, M)
+    i, m = I.get("I", ""), M.get("M", "")
+    if r["prop_ok"] and i.endswith("/ok") and m.endswith("/err"):
+        r["prop_ok"], r["why"] = False, "accepted %s where the specification rejects the number as not fitting the target" % i[:80]
+    return r
+RULES["numbytes"] = rule_numbytes
+for _s in PROPS["C09"]["streams"]:
+    if _s["name"] == "numbytes":
+        _s["rule"] = "numbytes"
